@@ -29,7 +29,7 @@ ASSUMPTIONS = ["the reference law is DESIGN.md §0 (written from README 'Notatio
                "targets are forced (zero-width) so that only `choice` consumes randomness; ties within 1e-9 are skipped"]
 
 SIZES = {"quick": {"instances": 640, "max_paths": 300}, "thorough": {"instances": 12000, "max_paths": 6000}}
-SOFT_DEADLINE = {"quick": 80.0, "thorough": 2400.0}
+SOFT_DEADLINE = {"quick": 80.0, "thorough": 1200.0}
 TOL = 1e-9
 
 
